@@ -33,7 +33,15 @@ Assumed('<file>', 'BlockFile.read', {'self': TObj('BlockFile'), 'size': TInt()},
 Assumed('<file>', 'BlockFile.tell', {'self': TObj('BlockFile')}, ret=TInt(), ensures=['result == self.pos'], raises={})
 Assumed('<hashlib>', 'Hasher.update', {'self': TObj('Hasher'), 'data': TBytes()}, modifies=['self.fed'], ensures=['self.fed == old(self.fed) + data'], raises={})
 Assumed('<hashlib>', 'Hasher.digest', {'self': TObj('Hasher')}, ret=TBytes(), ensures=['result == sha1(self.fed)'], raises={})
-lib.MODFUNCS['wpull.util.seek_file_end'] = None
+def _m_seek_file_end(ex, st, node, f):
+    """wpull.util.seek_file_end: file.seek(0, 2) (falls back to seeking in steps): the position becomes the length"""
+    if isinstance(f, VOpt): ex.may_raise(st, 'AttributeError', node, f.isnone, z3.Not(f.isnone), 'None.seek'); f = f.val
+    if not isinstance(f, VRef): raise ToolLimit('seek_file_end on %s' % type(f).__name__)
+    heap_set(st, f, 'pos', VInt(z3.Length(heap_get(st, f, 'content').term)))
+    return VNone()
+lib.MODFUNCS['wpull.util.seek_file_end'] = _m_seek_file_end
+Assumed('<file>', 'BlockFile.seek', {'self': TObj('BlockFile'), 'offset': TInt()}, modifies=['self.pos'], requires=['offset >= 0'], ensures=['self.pos == offset'], raises={},
+        note='seek(offset) from the start of the file (whence 0), as every call in recorder.py uses it')
 
 BF = 'self.block_file'
 S = {'self': TObj('WARCRecord')}
@@ -61,8 +69,18 @@ Contract(FM, 'WARCRecord.compute_checksum', dict(S, payload_offset=TOpt(TInt()))
              ('block-digest', 'implies(%s is not None, self.fields.map[norm("WARC-Block-Digest")] == "sha1:" + b32(sha1(%s.content)).decode())' % (BF, BF)),
              ('payload-digest', 'implies(%s is not None and payload_offset is not None, self.fields.map[norm("WARC-Payload-Digest")] == "sha1:" + b32(sha1(%s.content[payload_offset:])).decode())' % (BF, BF)),
              ('position-restored', 'implies(%s is not None, %s.pos == 0)' % (BF, BF)),
-             ('empty', 'implies(%s is None, self.fields.map[norm("Content-Length")] == "0")' % BF)],
+             ('empty', 'implies(%s is None, self.fields.map[norm("Content-Length")] == "0")' % BF),
+             ('other-fields-kept', 'forall_str(lambda k: implies(k in old(self.fields.map), k in self.fields.map))')],
     raises={'OSError': []})
+
+Contract(FM, 'WARCRecord.set_content_length', S, prop='C05/C04',
+    requires=['implies(%s is not None, 0 <= %s.pos and %s.pos <= len(%s.content))' % (BF, BF, BF, BF)],
+    modifies=['self.fields.map', 'self.fields.count', '%s.pos' % BF],
+    ensures=[('content-length', 'implies(%s is not None, self.fields.map[norm("Content-Length")] == str_of_int(len(%s.content)))' % (BF, BF)),
+             ('position-restored', 'implies(%s is not None, %s.pos == old(%s.pos))' % (BF, BF, BF)),
+             ('empty', 'implies(%s is None, self.fields.map[norm("Content-Length")] == "0")' % BF),
+             ('other-fields-kept', 'forall_str(lambda k: implies(k in old(self.fields.map), k in self.fields.map))')],
+    raises={'OSError': []}, note='the digests-off path of set_length_and_maybe_checksums: the length is the whole block and the position stays where the caller put it')
 
 # ---- recorder -----------------------------------------------------------------------------------------------------------------
 declare_class('WARCRecorderParams', {'compress': TBool(), 'cdx': TBool(), 'appending': TBool(), 'digests': TBool(), 'max_size': TOpt(TInt()),
@@ -169,11 +187,28 @@ SPECFUNS['basename'] = lambda ex, st, p: lib.m_basename(ex, st, None, p)
 declare_class('TempFile', {'content': TBytes(), 'pos': TInt()})
 declare_class('HTTPWARCRecorderSession', {'_recorder': TObj('WARCRecorder'), '_request': TOpt(TObj('HTTPRequest')), '_request_record': TOpt(TObj('WARCRecord')),
                                           '_response_record': TOpt(TObj('WARCRecord')), '_response_temp_file': TObj('BlockFile'), '_response_payload_offset': TOpt(TInt()),
-                                          '_url_table': TOpt(TAny())})
+                                          '_url_table': TOpt(TObj('RevisitTable'))})
 Assumed('<file>', 'BlockFile.write', {'self': TObj('BlockFile'), 'data': TBytes()}, modifies=['self.content', 'self.pos'],
         ensures=['self.content == old(self.content) + data', 'self.pos == old(self.pos) + len(data)'], requires=['self.pos == len(self.content)'], raises={'OSError': []},
         note='temp file opened for writing, position at the end: write appends')
 HS = {'self': TObj('HTTPWARCRecorderSession')}
+RBF = 'record.block_file'
+Contract(RC, 'WARCRecorder.set_length_and_maybe_checksums', dict(RS, record=TObj('WARCRecord'), payload_offset=TOpt(TInt())), prop='C04/C05', defaults={'payload_offset': None},
+    requires=['implies(%s is not None, %s.pos == 0)' % (RBF, RBF), 'implies(payload_offset is not None, payload_offset >= 0)'],
+    modifies=['record.fields.map', 'record.fields.count', '%s.pos' % RBF, 'all_of("Hasher.fed")'],
+    ensures=[('length-of-the-whole-block', 'implies(%s is not None, record.fields.map[norm("Content-Length")] == str_of_int(len(%s.content)))' % (RBF, RBF)),
+             ('still-at-the-start', 'implies(%s is not None, %s.pos == 0)' % (RBF, RBF), {'C04'}),
+             ('other-fields-kept', 'forall_str(lambda k: implies(k in old(record.fields.map), k in record.fields.map))')],
+    raises={'OSError': []},
+    note='whether digests are on (compute_checksum) or off (set_content_length): the declared length is the whole block and the block file is left at its start, '
+         'which is where WARCRecord.__iter__ starts copying the block into the archive')
+Assumed(RC, 'WARCRecorder.write_record', dict(RS, record=TObj('WARCRecord')), name='WARCRecorder.write_record@session', modifies=['record.fields.map', 'record.fields.count', 'self.g_written'],
+    requires=[('the-block-is-written-from-its-first-byte', 'implies(%s is not None, %s.pos == 0)' % (RBF, RBF))],
+    ensures=['self.g_written == old(self.g_written) + 1'], raises={'OSError': []},
+    note='call-site view for the recorder sessions; the body is verified under C05/C06/C07 (WARCRecord.__iter__ copies content[pos:]: a block file that is not at its start '
+         'gives a record whose block is a suffix of -- or nothing of -- what was sent)')
+declare_class('WARCRecorder', {'g_written': TInt()})
+_SESSION_NAMES = {'WARCRecorder.write_record': 'WARCRecorder.write_record@session'}
 Contract(RC, 'HTTPWARCRecorderSession.request_data', dict(HS, data=TBytes()), prop='C04',
     requires=['self._request_record is not None', 'self._request_record.block_file is not None', 'self._request_record.block_file.pos == len(self._request_record.block_file.content)'],
     modifies=['self._request_record.block_file.content', 'self._request_record.block_file.pos'],
@@ -182,3 +217,36 @@ Contract(RC, 'HTTPWARCRecorderSession.response_data', dict(HS, data=TBytes()), p
     requires=['self._response_temp_file.pos == len(self._response_temp_file.content)'],
     modifies=['self._response_temp_file.content', 'self._response_temp_file.pos'],
     ensures=[('appended-verbatim', 'self._response_temp_file.content == old(self._response_temp_file.content) + data')], raises={'OSError': []})
+
+# ---- C04: the records handed to the recorder at the end of a request / response are written from the first byte of their block -----------------------------------
+Assumed('wpull/protocol/http/request.py', 'Request.to_bytes', {'self': TObj('HTTPRequest')}, name='HTTPRequest.to_bytes@len', ret=TBytes(), raises={}, note='only the length is used (payload offset)')
+Contract(RC, 'HTTPWARCRecorderSession.end_request', dict(HS, request=TObj('HTTPRequest')), prop='C04', names=dict(_SESSION_NAMES, **{'HTTPRequest.to_bytes': 'HTTPRequest.to_bytes@len'}),
+    requires=['self._request_record is not None', 'self._request_record.block_file is not None', 'self._request_record.block_file.pos == len(self._request_record.block_file.content)'],
+    modifies=['self._request_record.block_file.pos', 'self._request_record.fields.map', 'self._request_record.fields.count', 'self._recorder.g_written', 'all_of("Hasher.fed")'],
+    ensures=[('one-request-record', 'self._recorder.g_written == old(self._recorder.g_written) + 1'),
+             ('block-untouched', 'self._request_record.block_file.content == old(self._request_record.block_file.content)')],
+    raises={'OSError': []},
+    note='the precondition is the state request_data leaves (position at the end of what was appended); the obligations at the write_record call say that the record goes out '
+         'from the first byte of its block with the length of the whole block, digests on or off')
+
+Assumed('<file>', 'BlockFile.truncate', {'self': TObj('BlockFile'), 'size': TInt()}, modifies=['self.content'], requires=['size >= 0'],
+        ensures=['len(self.content) == size', 'implies(size <= len(old(self.content)), self.content == old(self.content)[:size])', 'implies(size > len(old(self.content)), startswith(self.content, old(self.content)))'],
+        raises={}, note='truncate(size): cuts (or zero-extends); the position does not move')
+declare_class('RevisitTable', {})
+Assumed('<table>', 'RevisitTable.get_revisit_id', {'self': TObj('RevisitTable'), 'url': TStr(), 'digest': TStr()}, ret=TOpt(TStr()), raises={}, note='URL table lookup of an earlier record with the same payload digest')
+RR = 'self._response_record'
+Contract(RC, 'HTTPWARCRecorderSession._record_revisit', dict(HS, payload_offset=TInt()), prop='C04', names=_SESSION_NAMES,
+    requires=['%s is not None' % RR, '%s.block_file is not None' % RR, '%s.block_file.pos == 0' % RR, 'payload_offset >= 0', 'self._url_table is not None',
+              'norm("WARC-Target-URI") in %s.fields.map' % RR],
+    modifies=['%s.block_file.content' % RR, '%s.block_file.pos' % RR, '%s.fields.map' % RR, '%s.fields.count' % RR, 'all_of("Hasher.fed")'],
+    ensures=[('still-at-the-start', '%s.block_file.pos == 0' % RR)],
+    raises={'OSError': []}, note='a revisit keeps the header block (the first payload_offset bytes) and drops the payload')
+Contract(RC, 'HTTPWARCRecorderSession.end_response', dict(HS, response=TObj('HTTPResponse')), prop='C04',
+    names=dict(_SESSION_NAMES, **{'HTTPResponse.to_bytes': 'HTTPResponse.to_bytes@len'}),
+    requires=['%s is not None' % RR, '%s.block_file is not None' % RR, '%s.block_file.pos == len(%s.block_file.content)' % (RR, RR),
+              'implies(self._response_payload_offset is not None, self._response_payload_offset >= 0)', 'norm("WARC-Target-URI") in %s.fields.map' % RR],
+    modifies=['%s.block_file.content' % RR, '%s.block_file.pos' % RR, '%s.fields.map' % RR, '%s.fields.count' % RR, 'self._recorder.g_written', 'all_of("Hasher.fed")'],
+    ensures=[('one-response-record', 'self._recorder.g_written == old(self._recorder.g_written) + 1'),
+             ('block-untouched-unless-revisit', 'implies(self._url_table is None, %s.block_file.content == old(%s.block_file.content))' % (RR, RR))],
+    raises={'OSError': []})
+Assumed('wpull/protocol/http/request.py', 'Response.to_bytes', {'self': TObj('HTTPResponse')}, name='HTTPResponse.to_bytes@len', ret=TBytes(), raises={}, note='only the length is used (payload offset)')
